@@ -187,49 +187,32 @@ theorem season_jde0_ok {year k : Int} (hy : -1000 ≤ year ∧ year ≤ 3000) : 
 
 theorem aReduce_zero : aReduce 0 = 0 := aReduce_of_abs_lt (by norm_num)
 
-theorem aReduce_360 : aReduce 360 = 0 := by
-  unfold aReduce ple pabs pmod ptrunc imod ofInt
-  norm_num
-
-theorem aReduce_neg_360 : aReduce (-360) = 0 := by
-  unfold aReduce ple pabs pmod ptrunc imod ofInt
-  norm_num
-
-/-- `round` of a number of absolute value below 1 is −1, 0 or 1. -/
-theorem roundHE_small {q : ℝ} (h : |q| < 1) : roundHE q = -1 ∨ roundHE q = 0 ∨ roundHE q = 1 := by
-  rw [abs_lt] at h
-  have hf : pfloor q = -1 ∨ pfloor q = 0 := by
-    unfold pfloor
-    by_cases h0 : 0 ≤ q
-    · right; exact Int.floor_eq_iff.mpr ⟨by simpa using h0, by simpa using h.2⟩
-    · left; rw [not_le] at h0
-      exact Int.floor_eq_iff.mpr ⟨by push_cast; linarith, by push_cast; linarith⟩
-  unfold roundHE
+/-- `round` (ties to even) is within one half of its argument. -/
+theorem roundHE_near (q : ℝ) : |q - ((roundHE q : ℤ) : ℝ)| ≤ 1 / 2 := by
+  have h0 := Int.floor_le q
+  have h1 := Int.lt_floor_add_one q
+  unfold roundHE pfloor plt ofInt
   simp only
-  rcases hf with hf | hf <;> rw [hf] <;> split_ifs <;> simp_all
+  by_cases a : q - ((⌊q⌋ : ℤ) : ℝ) < 1 / 2
+  · rw [if_pos (by simpa using a), abs_le]; constructor <;> linarith
+  · rw [if_neg (by simpa using a)]
+    by_cases b : (1 : ℝ) / 2 < q - ((⌊q⌋ : ℤ) : ℝ)
+    · rw [if_pos (by simpa using b), abs_le]; push_cast; constructor <;> linarith
+    · rw [if_neg (by simpa using b)]
+      have e : q - ((⌊q⌋ : ℤ) : ℝ) = 1 / 2 := le_antisymm (not_lt.mp b) (not_lt.mp a)
+      split_ifs
+      · rw [e, abs_of_pos (by norm_num)]
+      · push_cast; rw [abs_le]; constructor <;> linarith
 
-/-- The "reduction to ±180°" of `equation_of_time`, evaluated on Angles as coded, returns its
-    argument unchanged: `360.0 * Angle(±1)` is `Angle(±360)`, i.e. 0. -/
-theorem eot_reduce_id {e : ℝ} (h : |e| < 360) : eot_reduce e = e := by
-  have hq : |e / 360.0| < 1 := by
-    rw [abs_div]; norm_num; rw [div_lt_one (by norm_num)]; exact h
-  have hq' : aReduce (e / 360.0) = e / 360.0 := aReduce_of_abs_lt (by linarith)
-  have hw : aMulF (aReduce (round0 (aReduce (e / 360.0)))) 360.0 = 0 := by
-    rw [hq']
-    unfold round0 aMulF
-    rcases roundHE_small hq with hr | hr | hr <;> rw [hr] <;> unfold ofInt
-    · have : aReduce ((-1 : ℤ) : ℝ) = ((-1 : ℤ) : ℝ) := aReduce_of_abs_lt (by push_cast; norm_num)
-      rw [this]; norm_num; exact aReduce_neg_360
-    · have : aReduce ((0 : ℤ) : ℝ) = 0 := by norm_num; exact aReduce_zero
-      rw [this]; norm_num; exact aReduce_zero
-    · have : aReduce ((1 : ℤ) : ℝ) = ((1 : ℤ) : ℝ) := aReduce_of_abs_lt (by push_cast; norm_num)
-      rw [this]; norm_num; exact aReduce_360
-  unfold eot_reduce
-  simp only
-  rw [hw]
-  unfold aSub aAdd aNeg
-  rw [neg_zero, aReduce_zero, add_zero]
-  exact aReduce_of_abs_lt h
+/-- `x - 360.0 * round(x / 360.0)` lands in [−180, 180] and differs from `x` by whole turns. -/
+theorem wrap180_range (x : ℝ) :
+    -180 ≤ wrap180 x ∧ wrap180 x ≤ 180 ∧ ∃ n : ℤ, wrap180 x = x - 360 * n := by
+  have h := abs_le.mp (roundHE_near (x / 360.0))
+  have e : x / 360.0 = x / 360 := by norm_num
+  rw [e] at h
+  unfold wrap180 ofInt
+  rw [e]
+  refine ⟨?_, ?_, roundHE (x / 360), by norm_num⟩ <;> norm_num <;> linarith [h.1, h.2]
 
 /-- `int(x)` and `abs(x) % 1` split `|x|` into integer part and fraction. -/
 theorem ptrunc_abs (x : ℝ) : |((ptrunc x : ℤ) : ℝ)| = ((⌊|x|⌋ : ℤ) : ℝ) := by
